@@ -99,6 +99,10 @@ def check_if_not_need_reshape(
             reversed(input_b_shape_except_last_dim),
         )
     ):
+        if idx == 0 and dim_from_a != dim_from_b:
+            # The contraction dimension is not broadcast: it has to be the same.
+            logger.info("Original shape is not MatMul compatible.")
+            return False
         if dim_from_a not in {1, dim_from_b}:
             logger.info("Original shape is not broadcastable.")
             return False
